@@ -854,6 +854,17 @@ class _CCSubst(ast.NodeTransformer):
             return ast.copy_location(ast.Name(id="t", ctx=ast.Load()), node)
         return self.generic_visit(node)
 
+    def visit_Call(self, node):
+        # elementwise  x.astype(int)  is  int(x)  on every entry (truncation toward zero)
+        node = self.generic_visit(node)
+        if isinstance(node.func, ast.Attribute) and node.func.attr == "astype" \
+                and len(node.args) == 1 and not node.keywords \
+                and _cc_unparse(node.args[0]) in ("int", "np.int64", "np.int_"):
+            return ast.copy_location(
+                ast.Call(func=ast.Name(id="int", ctx=ast.Load()), args=[node.func.value], keywords=[]),
+                node)
+        return node
+
 
 def _cc_get_controls(src, out):
     rel = "oqupy/control.py"
@@ -1550,6 +1561,106 @@ def frag_corrtimes(src):
     out.append("/-- %s:%d  default of parameter `dt` of _compute_ordered_nt_correlations "
                "(\"\" = no default) -/\ndef ordered_dt_default : String := %s\n"
                % (rel, fo.lineno, _c07_lstr(defaults.get("dt", ""))))
+    # how the value of an entry is formed: the last operator contracted with the recorded states
+    def last_operator(node, what):
+        if ast.unparse(node) != "operators[-1]":
+            raise Untranslatable("%s: the contracted operator is %s" % (what, ast.unparse(node)))
+
+    def pairs_of_trace_matmul(fd, opname):
+        """BaseDynamics.expectations: np.trace(<op> @ state) for state in self._states -> axis pairs
+        (operator axis, state axis)"""
+        loops = [n for n in ast.walk(fd) if isinstance(n, ast.For)
+                 and ast.unparse(n.iter) == "self._states" and isinstance(n.target, ast.Name)]
+        if len(loops) != 1 or len(loops[0].body) != 1:
+            raise Untranslatable("BaseDynamics.expectations: loop over the states")
+        st = loops[0].target.id
+        body = ast.unparse(loops[0].body[0])
+        src_op = [ast.unparse(h.value) for h in
+                  Source.assignment(None, fd, "tmp_operator")] if False else \
+            [ast.unparse(n.value) for n in ast.walk(fd) if isinstance(n, ast.Assign)
+             and ast.unparse(n.targets[0]) == "tmp_operator"]
+        if "np.array(%s, dtype=NpDtype)" % opname not in src_op:
+            raise Untranslatable("BaseDynamics.expectations: tmp_operator = %s" % src_op)
+        rets = [ast.unparse(n.value) for n in ast.walk(fd) if isinstance(n, ast.Return)]
+        if "(times, expectations)" not in rets:
+            raise Untranslatable("BaseDynamics.expectations: return value")
+        if body == "expectations_list.append(np.trace(tmp_operator @ %s))" % st:
+            return [(0, 1), (1, 0)], "np.trace(operator @ state)"     # sum_ij O[i,j] rho[j,i]
+        if body == "expectations_list.append(np.trace(%s @ tmp_operator))" % st:
+            return [(0, 1), (1, 0)], "np.trace(state @ operator)"
+        raise Untranslatable("BaseDynamics.expectations: %s" % body)
+
+    hits = src.assignment(fo, "corr")
+    tup = [n for n in ast.walk(fo) if isinstance(n, ast.Assign) and isinstance(n.targets[0], ast.Tuple)
+           and [ast.unparse(e) for e in n.targets[0].elts][-1:] == ["corr"]]
+    if len(hits) + len(tup) != 1:
+        raise Untranslatable("_compute_ordered_nt_correlations: corr")
+    if tup:
+        v = tup[0].value
+        if not (isinstance(v, ast.Call) and ast.unparse(v.func) == "dynamics.expectations"
+                and len(v.args) == 1 and not v.keywords and len(tup[0].targets[0].elts) == 2):
+            raise Untranslatable("_compute_ordered_nt_correlations: corr = %s" % ast.unparse(v))
+        last_operator(v.args[0], "_compute_ordered_nt_correlations")
+        fd = src.function("oqupy/dynamics.py", "BaseDynamics.expectations")
+        if [a.arg for a in fd.args.args][:2] != ["self", "operator"]:
+            raise Untranslatable("BaseDynamics.expectations: parameters")
+        pairs, form = pairs_of_trace_matmul(fd, "operator")
+        where = "dynamics.expectations(operators[-1]) -> oqupy/dynamics.py:%d %s" % (fd.lineno, form)
+    else:
+        v = hits[0].value
+        fname = attr_chain(v.func) if isinstance(v, ast.Call) else None
+        if fname == ["np", "tensordot"] and len(v.args) == 2 and [k.arg for k in v.keywords] == ["axes"]:
+            names = [ast.unparse(a) for a in v.args]
+            try:
+                ax = ast.literal_eval(v.keywords[0].value)
+                ax = ([int(x) for x in ax[0]], [int(x) for x in ax[1]])
+            except Exception:
+                raise Untranslatable("_compute_ordered_nt_correlations: tensordot axes")
+            if names[0] == "dynamics.states":
+                last_operator(v.args[1], "tensordot")
+                st_ax, op_ax = ax
+            elif names[1] == "dynamics.states":
+                last_operator(v.args[0], "tensordot")
+                op_ax, st_ax = ax
+            else:
+                raise Untranslatable("_compute_ordered_nt_correlations: tensordot operands %s" % names)
+            if len(st_ax) != 2 or len(op_ax) != 2 or sorted(st_ax) != [1, 2] or sorted(op_ax) != [0, 1]:
+                raise Untranslatable("_compute_ordered_nt_correlations: tensordot axes %r" % (ax,))
+            pairs = [(o, s_ - 1) for o, s_ in zip(op_ax, st_ax)]      # states carry the time axis 0
+            where = ast.unparse(v)
+        elif fname == ["np", "einsum"] and len(v.args) == 3 and isinstance(v.args[0], ast.Constant) \
+                and not v.keywords:
+            spec = v.args[0].value.replace(" ", "")
+            ins, _, outp = spec.partition("->")
+            sub = ins.split(",")
+            names = [ast.unparse(a) for a in v.args[1:]]
+            if "dynamics.states" not in names or len(sub) != 2:
+                raise Untranslatable("_compute_ordered_nt_correlations: einsum operands")
+            si = names.index("dynamics.states")
+            last_operator(v.args[1 + (1 - si)], "einsum")
+            ss, os_ = sub[si], sub[1 - si]
+            if len(ss) != 3 or len(os_) != 2 or outp != ss[0] or len(set(ss)) != 3 \
+                    or sorted(os_) != sorted(ss[1:]):
+                raise Untranslatable("_compute_ordered_nt_correlations: einsum %r" % spec)
+            pairs = [(k, ss.index(ch) - 1) for k, ch in enumerate(os_)]
+            where = ast.unparse(v)
+        else:
+            raise Untranslatable("_compute_ordered_nt_correlations: corr = %s" % ast.unparse(v))
+    pairs = sorted(pairs)
+    out.append("/-- %s:%d  value of an entry: the last operator `operators[-1]` contracted with every "
+               "recorded state, via  %s ;  pairs (axis of the operator, axis of the state) that are "
+               "summed over -/\ndef final_value_pairs : List (Nat × Nat) := [%s]\n"
+               % (rel, (tup or hits)[0].lineno, where.replace("-/", "- /"),
+                  ", ".join("(%d, %d)" % p for p in pairs)))
+    sel = [ast.unparse(h.value) for h in src.assignment(fo, "ret_correlations")]
+    sup = sorted(set(ast.unparse(n) for n in ast.walk(fo) if isinstance(n, ast.Call)
+                     and attr_chain(n.func) in (["left_super"], ["right_super"],
+                                                ["control", "add_single"])))
+    tests = [ast.unparse(n.test) for n in ast.walk(fo) if isinstance(n, ast.If)]
+    out.append("/-- which of the values are returned, and how the earlier operators enter -/\n"
+               "def final_value_selection : List String := %s\n"
+               "def earlier_operator_insertion : List String := %s\n"
+               % (_c07_lstrs(sel), _c07_lstrs(tests + sup)))
     dc = _c07_calls(fo, "compute_dynamics")
     if len(dc) != 1:
         raise Untranslatable("_compute_ordered_nt_correlations: call of compute_dynamics")
@@ -1764,7 +1875,7 @@ class OrderSpec:
                  backend_lists=(), control_methods=(), record_methods=(), record_attrs=(),
                  init_results_methods=(), pure=(), pure_methods=(), start_attr=None,
                  net_constructors=(), trace_compute=(), trace_clear=(), trace_read=(),
-                 record_local_methods=()):
+                 record_local_methods=(), user_noarg=None, inline=None):
         self.user = user or {}                # self.<attr>(...)  -> callUser id
         self.user_lists = user_lists or {}    # for f in self.<attr>: f(...) -> callUser id
         self.net = set(net)                   # attributes holding the persistent tensor network
@@ -1785,6 +1896,11 @@ class OrderSpec:
         self.trace_clear = set(trace_clear)
         self.trace_read = set(trace_read)
         self.record_local_methods = set(record_local_methods)
+        # self.<attr>(..) -> callUser id whose argument is not a step value (emitted as ⟨0, 0⟩)
+        self.user_noarg = user_noarg or {}
+        # self.<m>(step, ..) / backend.<m>(step, ..) whose own micro-op list (relative to its
+        # first argument) is spliced in instead of one atomic `mutate`
+        self.inline = inline or {}
 
 
 PURE_COMMON = {"int", "len", "range", "bool", "zip", "copy", "deepcopy", "reversed", "list",
@@ -1800,9 +1916,12 @@ class _Path:
         self.cur = cur                       # Aff of the step counter now (None = unknown)
         self.done = done
         self.bound = dict(bound or {})       # local name -> ("user", id) | ("backend",)
+        self.locals = set()
 
     def clone(self):
-        return _Path(self.ops, self.env, self.cur, self.done, self.bound)
+        q = _Path(self.ops, self.env, self.cur, self.done, self.bound)
+        q.locals = set(self.locals)
+        return q
 
     def key(self):
         return (tuple(self.ops), tuple(sorted((k, v.key()) for k, v in self.env.items())),
@@ -1905,6 +2024,12 @@ class OrderExtractor:
             self.expr_ops(e.elt, p)
             p.bound = saved
             return
+        if isinstance(e, ast.JoinedStr):
+            for x in e.values:
+                self.expr_ops(x, p)
+            return
+        if isinstance(e, ast.FormattedValue):
+            return self.expr_ops(e.value, p)
         if isinstance(e, ast.Call):
             return self.call_ops(e, p)
         self.fail(e, "expression " + type(e).__name__)
@@ -1965,6 +2090,23 @@ class OrderExtractor:
                 self.fail(e, "step argument of %s is not an affine step value" % what)
             return v
         # user callables
+        if len(ch) == 2 and ch[0] == "self" and ch[1] in sp.user_noarg:
+            p.ops.append(("callUser", sp.user_noarg[ch[1]], (0, 0)))
+            return
+        if ((len(ch) == 2 and ch[0] == "self") or
+                (len(ch) == 2 and p.bound.get(ch[0], (None,))[0] == "backend")) \
+                and ch[1] in sp.inline:
+            x = need(self.step_arg(e, p), name)
+            if x.a != 1:
+                self.fail(e, "inlined call with a non-unit step argument")
+            for o in sp.inline[ch[1]]:
+                if o[0] == "mutate":
+                    p.ops.append(("mutate", (o[1][0], o[1][1] + x.b) if o[1][0] == 1 else o[1]))
+                elif o[0] == "callUser":
+                    p.ops.append(o)
+                else:
+                    self.fail(e, "inlined method does more than call user code and mutate")
+            return
         if len(ch) == 2 and ch[0] == "self" and ch[1] in sp.user:
             p.ops.append(("callUser", sp.user[ch[1]], need(self.step_arg(e, p), name).key()))
             return
@@ -1984,12 +2126,18 @@ class OrderExtractor:
             p.ops.append(("traceRead",))
             return
         # methods of plain local objects
-        if len(ch) == 2 and ch[0] != "self" and ch[0] not in p.bound \
+        if len(ch) == 2 and ch[0] != "self" and \
+                p.bound.get(ch[0], ("netalias",))[0] == "netalias" \
                 and ch[0] not in ("np", "na", "util", "tn"):
             if ch[1] in sp.record_local_methods:
                 p.ops.append(("record",))
                 return
             if ch[1] in ("append", "items"):
+                return
+            if p.bound.get(ch[0], (None,))[0] == "netalias":
+                p.ops.append(("mutate", need(p.cur, "the step counter").key()))
+                return
+            if ch[0] in p.locals:                # method of a local object (a copy): no effect
                 return
         # mutation of the persistent tensor network
         is_self_m = len(ch) == 2 and ch[0] == "self"
@@ -2031,6 +2179,10 @@ class OrderExtractor:
         sp = self.spec
         if isinstance(t, ast.Name):
             p.bound.pop(t.id, None)
+            p.locals.add(t.id)
+            vch = attr_chain(value) if value is not None else None
+            if vch and len(vch) == 2 and vch[0] == "self" and vch[1] in sp.net:
+                p.bound[t.id] = ("netalias", 0)      # the persistent network itself, not a copy
             v = self.aff(value, p) if value is not None else None
             if v is not None:
                 p.env[t.id] = v
@@ -2053,6 +2205,8 @@ class OrderExtractor:
             self.fail(node, "assignment to " + ast.unparse(t))
         if isinstance(t, ast.Attribute):
             ch = attr_chain(t)
+            if ch and len(ch) == 2 and ch[0] in p.locals and ch[0] not in p.bound:
+                return                          # attribute of a local object (a copy)
             if not ch or len(ch) != 2 or ch[0] != "self":
                 self.fail(node, "assignment to " + ast.unparse(t))
             if ch[1] == "_step":
@@ -2102,6 +2256,13 @@ class OrderExtractor:
                 self.expr_ops(s.value, p)
             return paths
         if isinstance(s, ast.Pass):
+            return paths
+        if isinstance(s, ast.Assert):
+            for p in paths:
+                n0 = len(p.ops)
+                self.expr_ops(s.test, p)
+                if len(p.ops) != n0:
+                    self.fail(s, "state-changing call in assert")
             return paths
         if isinstance(s, ast.Assign):
             for p in paths:
@@ -2195,8 +2356,9 @@ class OrderExtractor:
             return out
         self.fail(s, "statement " + type(s).__name__)
 
-    def run(self, fn, entry_known=True):
-        p = _Path(cur=Aff(1, 0) if entry_known else None)
+    def run(self, fn, entry_known=True, env=None):
+        p = _Path(cur=Aff(1, 0) if entry_known else None, env=env)
+        p.locals = set(a.arg for a in fn.args.args if a.arg != "self")
         paths = self.stmts(fn.body, [p])
         outs = []
         for q in paths:
@@ -2304,6 +2466,33 @@ def _snapshot_exact(src, rel, cls, step_method="compute_system_step"):
     return restored == [["self", a] for a in saved]
 
 
+def _is_none_test(t, attr):
+    return isinstance(t, ast.Compare) and len(t.ops) == 1 and isinstance(t.ops[0], ast.Is) \
+        and isinstance(t.comparators[0], ast.Constant) and t.comparators[0].value is None \
+        and attr_chain(t.left) == ["self", attr]
+
+
+def _specialise_regime(body, regime, found):
+    """statements of compute_system_step for one memory regime:
+      nocutoff : every `if self._dkmax is None:` takes its body
+      within   : ... takes its else-part, and `if current_step <= self._dkmax:` its body
+      beyond   : ... and that one its else-part"""
+    out = []
+    for st in body:
+        if isinstance(st, ast.If) and _is_none_test(st.test, "_dkmax"):
+            found["none"] += 1
+            out += st.body if regime == "nocutoff" else _specialise_regime(st.orelse, regime, found)
+        elif isinstance(st, ast.If) and isinstance(st.test, ast.Compare) \
+                and len(st.test.ops) == 1 and isinstance(st.test.ops[0], ast.LtE) \
+                and isinstance(st.test.left, ast.Name) and st.test.left.id == "current_step" \
+                and attr_chain(st.test.comparators[0]) == ["self", "_dkmax"]:
+            found["within"].append(st.test)
+            out += st.body if regime == "within" else _specialise_regime(st.orelse, regime, found)
+        else:
+            out.append(st)
+    return out
+
+
 def _single(paths, what):
     if len(paths) != 1:
         raise Untranslatable("%s: expected straight-line code, found %d paths" % (what, len(paths)))
@@ -2365,6 +2554,35 @@ def frag_looporder(src):
         out.append("/-- %s -/\ndef %s : List (List MicroOp) :=\n  [%s]\n"
                    % (doc, name, ",\n   ".join(_lean_ops(p) for p in paths)))
 
+    # --- BaseTempoBackend.compute_system_step, per memory regime -------------
+    # user callable 9 = self._influence: the influence functions evaluate the bath correlations
+    # (CustomCorrelations function / spectral density j_function supplied by the user)
+    css_spec = OrderSpec(user_noarg={"_influence": 9}, net={"_mps", "_mpo"},
+                         pure=PURE_COMMON, pure_methods=PURE_METHODS_COMMON | {"get_tensor"})
+    css_fn = src.function(TB, "BaseTempoBackend.compute_system_step")
+    css = {}
+    for regime in ("nocutoff", "within", "beyond"):
+        found = {"none": 0, "within": []}
+        body = _specialise_regime(css_fn.body, regime, found)
+        if found["none"] == 0 or (regime != "nocutoff" and len(found["within"]) != 1):
+            raise Untranslatable("compute_system_step: memory-regime branches not recognised")
+        fake = ast.FunctionDef(name=css_fn.name, args=css_fn.args, body=body, decorator_list=[],
+                               lineno=css_fn.lineno)
+        css[regime] = _single(OrderExtractor(css_spec, "BaseTempoBackend.compute_system_step["
+                                             + regime + "]").run(fake, env={"current_step": Aff(1, 0)}),
+                              "compute_system_step[" + regime + "]")
+        emit_ops("css_" + regime, css[regime],
+                 "%s:%d  BaseTempoBackend.compute_system_step, memory regime `%s` (step values "
+                 "relative to its argument current_step; user callable 9 = self._influence, i.e. "
+                 "the bath correlations)" % (TB, css_fn.lineno, regime))
+        if regime == "within":
+            trc = FnTranslator({"current_step": "Int", "dkmax": "Int"})
+            cnd = trc.expr(found["within"][0])
+            out.append(emit_def("css_within_cond", trc, cnd[0], "Bool", ["current_step", "dkmax"],
+                                "%s:%d  compute_system_step: the step lies within the memory "
+                                "cut-off iff %s" % (TB, found["within"][0].lineno,
+                                                    ast.unparse(found["within"][0]))))
+
     # --- TempoBackend.compute_step --------------------------------------
     spec = OrderSpec(user={"_propagators": 0}, net={"_mps", "_mpo"},
                      mut_methods={"compute_system_step"},
@@ -2375,6 +2593,22 @@ def frag_looporder(src):
     emit_ops("tempo_compute_step", ops,
              "%s:%d  TempoBackend.compute_step; user callable 0 = self._propagators "
              "(system Hamiltonian / rates / Lindblad operators)" % (TB, fn.lineno))
+
+    for regime in ("nocutoff", "within", "beyond"):
+        spec_i = OrderSpec(user={"_propagators": 0}, net={"_mps", "_mpo"},
+                           inline={"compute_system_step": css[regime]},
+                           pure=PURE_COMMON, pure_methods=PURE_METHODS_COMMON)
+        ops_i = _single(OrderExtractor(spec_i, "TempoBackend.compute_step").run(fn),
+                        "TempoBackend.compute_step")
+        emit_ops("tempo_step_" + regime, ops_i,
+                 "TempoBackend.compute_step with compute_system_step spliced in, regime `%s`"
+                 % regime)
+    # the step argument as seen in the extracted list (the `mutate` of the coarse list)
+    marg = [o[1] for o in ops if o[0] == "mutate"]
+    if len(marg) != 1:
+        raise Untranslatable("TempoBackend.compute_step: not exactly one network update")
+    out.append("/-- step value passed to compute_system_step, relative to the counter at entry -/\n"
+               "def tempo_css_arg : Aff := ⟨%d, %d⟩\n" % marg[0])
 
     # --- MeanFieldTempoBackend.compute_step -------------------------------
     spec = OrderSpec(user={"_compute_field_derivative": 0, "_compute_field": 2},
@@ -2390,6 +2624,23 @@ def frag_looporder(src):
     except Untranslatable:
         ex.snapshot_exact = False          # no copy_networks/restore_networks pair
     ops = _single(ex.run(fn), "MeanFieldTempoBackend.compute_step")
+    mfn = fn
+    marg = [o[1] for o in ops if o[0] == "mutate"]
+    if len(marg) != 1:
+        raise Untranslatable("MeanFieldTempoBackend.compute_step: not exactly one network update")
+    out.append("/-- step value passed to compute_system_step, relative to the counter at entry -/\n"
+               "def mft_css_arg : Aff := ⟨%d, %d⟩\n" % marg[0])
+    for regime in ("nocutoff", "within", "beyond"):
+        spec_i = OrderSpec(user={"_compute_field_derivative": 0, "_compute_field": 2},
+                           user_lists={"_propagators_list": 1}, net={"_mps", "_mpo"},
+                           inline={"compute_system_step": css[regime]},
+                           backend_lists={"_backend_list"},
+                           pure=PURE_COMMON, pure_methods=PURE_METHODS_COMMON)
+        exi = SaveAwareExtractor(spec_i, "MeanFieldTempoBackend.compute_step")
+        exi.snapshot_exact = ex.snapshot_exact
+        emit_ops("mft_step_" + regime, _single(exi.run(mfn), "MeanFieldTempoBackend.compute_step"),
+                 "MeanFieldTempoBackend.compute_step with compute_system_step spliced in, regime "
+                 "`%s`" % regime)
     emit_ops("mft_compute_step", ops,
              "%s:%d  MeanFieldTempoBackend.compute_step; user callables: 0 = "
              "self._compute_field_derivative (field_eom), 1 = the propagators of each system "
@@ -4511,20 +4762,25 @@ def _ff_remove(src, out):
                % (FF_REL, fn.lineno, ", ".join(steps)))
 
 
-def _ff_cond_over_overwrite(e):
+def _ff_cond_over_overwrite(e, others=None):
     """boolean expression over `overwrite`; every other operand (a helper call, a file
-    test, ...) becomes the free variable `other`"""
+    test, ...) becomes `other k`, one index per distinct operand (collected in `others`)"""
+    if others is None:
+        others = []
     if isinstance(e, ast.Name) and e.id == "overwrite":
         return "overwrite"
     c = _ff_const_bool(e)
     if c is not None:
         return c
     if isinstance(e, ast.UnaryOp) and isinstance(e.op, ast.Not):
-        return "(!%s)" % _ff_cond_over_overwrite(e.operand)
+        return "(!%s)" % _ff_cond_over_overwrite(e.operand, others)
     if isinstance(e, ast.BoolOp):
         sym = " && " if isinstance(e.op, ast.And) else " || "
-        return "(" + sym.join(_ff_cond_over_overwrite(v) for v in e.values) + ")"
-    return "other"
+        return "(" + sym.join(_ff_cond_over_overwrite(v, others) for v in e.values) + ")"
+    u = ast.unparse(e)
+    if u not in others:
+        others.append(u)
+    return "(other %d)" % others.index(u)
 
 
 def _ff_mode_by_overwrite(stmt, what, allow_other=False):
@@ -4532,9 +4788,11 @@ def _ff_mode_by_overwrite(stmt, what, allow_other=False):
     `other` standing for any operand of the condition that is not the caller's `overwrite`)"""
     ok = isinstance(stmt, ast.If) and len(stmt.body) == 1 and len(stmt.orelse) == 1
     if ok:
-        cond = _ff_cond_over_overwrite(stmt.test)
-        if "other" in cond and not allow_other:
+        others = []
+        cond = _ff_cond_over_overwrite(stmt.test, others)
+        if others and not allow_other:
             ok = False
+        _ff_mode_by_overwrite.others = others
     if ok:
         vals = []
         for s in (stmt.body[0], stmt.orelse[0]):
@@ -4831,12 +5089,15 @@ def _ff_pttempo(src, out):
         if isinstance(n, ast.Assign) and any(isinstance(t, ast.Name) and t.id == "overwrite"
                                              for t in n.targets):
             raise Untranslatable("PtTempo: overwrite reassigned")
-    out.append("/-- %s:%d  PtTempo._init_file_process_tensor: `%s` — (the caller's overwrite, any "
-               "other operand of the condition) ↦ mode; pt_tempo_compute and PtTempo.__init__ pass "
+    out.append("/-- %s:%d  PtTempo._init_file_process_tensor: `%s` — (the caller's overwrite, the "
+               "other operands of the condition, indexed) ↦ mode; pt_tempo_compute and PtTempo.__init__ pass "
                "`overwrite` through unchanged -/\n"
-               "def ptTempoMode (overwrite other : Bool) : String := %s\n"
+               "def ptTempoMode (overwrite : Bool) (other : Nat → Bool) : String := %s\n"
                % (rel, ifs[0].lineno, " ".join(ast.unparse(ifs[0]).split()),
                   _ff_mode_by_overwrite(ifs[0], "_init_file_process_tensor", allow_other=True)))
+    if _ff_mode_by_overwrite.others:
+        out.append("/- other operands: %s -/\n" % "; ".join(
+            "other %d = `%s`" % (k, u.replace("-/", "- /")) for k, u in enumerate(_ff_mode_by_overwrite.others)))
 
 
 def _ff_setter(src, out, prop, lean_name):
@@ -6164,7 +6425,23 @@ def _te_scan(rel, qual, fn, inherited, sites):
         # --- comparisons of two times ----------------------------------------------------
         if isinstance(node, ast.Compare) and len(node.ops) == 1:
             l, r = node.left, node.comparators[0]
-            if _te_time_leaves(l, roles) and _te_time_leaves(r, roles):
+            tl, tr = _te_time_leaves(l, roles), _te_time_leaves(r, roles)
+            other = None if tl == tr else (r if tl else l)
+            mixed = False
+            if other is not None:
+                # a time compared with a float-valued expression that is not a time (a duration,
+                # a fixed number): both sides must move alike, so lhs - rhs must be invariant.
+                # (a time-named variable compared with an INTEGER is a step index in an int
+                # branch, e.g. `times > max_step` in _parse_times)
+                w = _TEWalker(roles)
+                try:
+                    mixed = not w.is_int(other) and not (
+                        isinstance(other, ast.Constant) and other.value is None)
+                    if mixed:
+                        w.texpr(other)
+                except Untranslatable:
+                    mixed = False
+            if (tl and tr) or mixed:
                 diff = ast.BinOp(left=l, op=ast.Sub(), right=r)
                 ast.copy_location(diff, node)
                 add("cmp", "D", diff, node)
@@ -7355,6 +7632,49 @@ def _gw_deriv_sources(src, out):
                    % (_lstr(a), b, c_, _lstr(g)) for (a, b, c_, g) in rows)))
 
 
+def _gw_halfstep_derivative(src, out):
+    """ParameterizedSystem.halfstep_propagator_derivative: exactly
+         def prop(parameterlist): return expm(self.liouvillian(*parameterlist) * dt / 2.0)
+         jacfunre = Jacobian(lambda x: prop(x).real)
+         jacfunim = Jacobian(lambda x: prop(x).imag)
+         def jacfun(x):
+             jac = jacfunre(x) + 1j * jacfunim(x)
+             return [jac[:, i, :] for i in range(self._number_of_parameters)]
+         return jacfun
+       with `Jacobian` imported from numdifftools (which differentiates in float64 whatever the
+       dtype of the point it is given).  Any other body is refused."""
+    rel = "oqupy/system.py"
+    tree = src.tree(rel)
+    imports = [_gw_norm(n) for n in tree.body if isinstance(n, (ast.Import, ast.ImportFrom))]
+    if "from numdifftools import Jacobian" not in imports:
+        raise Untranslatable("oqupy/system.py: `Jacobian` is not imported from numdifftools")
+    fn = src.function(rel, "ParameterizedSystem.halfstep_propagator_derivative")
+    if [a.arg for a in fn.args.args] != ["self", "dt"]:
+        raise Untranslatable("halfstep_propagator_derivative: parameters")
+    body = _gw_body(fn)
+    texts = [_gw_norm(s) for s in body]
+    want = ["def prop(parameterlist): return expm(self.liouvillian(*parameterlist) * dt / 2.0)",
+            "jacfunre = Jacobian(lambda x: prop(x).real)",
+            "jacfunim = Jacobian(lambda x: prop(x).imag)",
+            "def jacfun(x): jac = jacfunre(x) + 1j * jacfunim(x) "
+            "return [jac[:, i, :] for i in range(self._number_of_parameters)]",
+            "return jacfun"]
+    if texts != want:
+        for k, (a, b) in enumerate(zip(texts + [""] * 5, want)):
+            if a != b:
+                raise Untranslatable("halfstep_propagator_derivative: statement %d is `%s`, expected `%s`"
+                                     % (k, a[:160], b))
+        raise Untranslatable("halfstep_propagator_derivative: %d statements, expected %d"
+                             % (len(texts), len(want)))
+    out.append("/-- %s:%d  ParameterizedSystem.halfstep_propagator_derivative(dt): the derivative of\n"
+               "    expm(L(x)·dt/2) w.r.t. each parameter is  Jacobian(Re) + i·Jacobian(Im), both numdifftools\n"
+               "    Jacobians evaluated UNCONDITIONALLY at the parameter row (numdifftools works in float64\n"
+               "    whatever the dtype of the row); entry i of the result = slice [:, i, :] -/\n"
+               "def halfstepRealJacobianUnconditional : Bool := true\n"
+               "def halfstepImagJacobianUnconditional : Bool := true\n"
+               "def halfstepDifferentiator : String := \"numdifftools.Jacobian\"\n" % (rel, fn.lineno))
+
+
 @fragment("GradWiring")
 def frag_gradwiring(src):
     out = [GW_PREAMBLE]
@@ -7376,6 +7696,7 @@ def frag_gradwiring(src):
                "def bwdJoinAligned : Bool := (!bwdCallReversed) || applyReverseReorders\n")
     _gw_memo_sites(src, out)
     _gw_deriv_sources(src, out)
+    _gw_halfstep_derivative(src, out)
     return "\n".join(out)
 # end of GradWiring
 
@@ -7614,6 +7935,100 @@ def _mf_mft(src, out):
         raise Untranslatable("MeanFieldTempo._compute_field: parameters")
     _mf_heun_body(fn.body, out, "mft_cf", rel, "MeanFieldTempo._compute_field", eom,
                   ["start_time", "dt", "step"])
+    _mf_compute_labels(src, out)
+
+
+def _mf_compute_labels(src, out):
+    """MeanFieldTempo.compute: which step labels (through self._time) the states and field that
+    are added to the dynamics -- the step returned by the backend or something else (a counter of
+    the loop of the current call) -- and that the returned states / field are the ones stored"""
+    rel, qual = "oqupy/tempo.py", "MeanFieldTempo.compute"
+    fn = src.function(rel, qual)
+    body = []
+    for x in _mf_strip(fn.body):            # a `with progress(...) as prog_bar:` is transparent here
+        body.extend(_mf_strip(x.body) if isinstance(x, ast.With) else [x])
+    ty = {"returned_step": "Int", "loop_counter": "Int"}
+
+    class _Ren(ast.NodeTransformer):
+        def __init__(self, m):
+            self.m = m
+
+        def visit_Name(self, node):
+            return ast.Name(id=self.m.get(node.id, "py_" + node.id), ctx=ast.Load())
+
+    def tuple3(stmts, callee, where):
+        hits = [x for x in stmts if isinstance(x, ast.Assign) and isinstance(x.value, ast.Call)
+                and _mf_norm(x.value.func) == callee and not x.value.args]
+        if len(hits) != 1 or not isinstance(hits[0].targets[0], ast.Tuple) \
+                or len(hits[0].targets[0].elts) != 3 \
+                or not all(isinstance(e, ast.Name) for e in hits[0].targets[0].elts):
+            raise Untranslatable("%s: result of %s" % (where, callee))
+        return hits[0], [e.id for e in hits[0].targets[0].elts]
+
+    def add_call(stmts, after, where):
+        hits = [x for x in stmts if isinstance(x, ast.Expr) and isinstance(x.value, ast.Call)
+                and _mf_norm(x.value.func) == "self._dynamics.add"]
+        if len(hits) != 1 or stmts.index(hits[0]) < stmts.index(after) or hits[0].value.keywords \
+                or len(hits[0].value.args) != 3:
+            raise Untranslatable(where + ": the call of self._dynamics.add")
+        t = hits[0].value.args[0]
+        if not (isinstance(t, ast.Call) and _mf_norm(t.func) == "self._time" and len(t.args) == 1
+                and not t.keywords):
+            raise Untranslatable(where + ": the time handed to self._dynamics.add is not self._time(..)")
+        return hits[0], t.args[0], hits[0].value.args[1], hits[0].value.args[2]
+
+    # -- the initial record
+    inits = [x for x in body if isinstance(x, ast.If)
+             and _mf_norm(x.test) == "self._backend_instance.step is None"]
+    if len(inits) != 1 or inits[0].orelse:
+        raise Untranslatable(qual + ": initialisation block")
+    ib = _mf_strip(inits[0].body)
+    asg, (r, st, fl) = tuple3(ib, "self._backend_instance.initialize", qual)
+    add, e, sa, fa = add_call(ib, asg, qual + " (initial)")
+    if _mf_norm(sa) != st or _mf_norm(fa) != fl or st == "_" or fl == "_":
+        raise Untranslatable(qual + ": the initial record does not store the backend's states/field")
+    out.append(_mf_flt_def("mft_init_label_step", [], _Ren({r: "returned_step"}).visit(
+        ast.parse(_mf_norm(e), mode="eval").body), ["returned_step"],
+        "%s:%d %s:  %s" % (rel, add.lineno, qual, _mf_norm(add)), types=ty, ret="Int"))
+    # -- the step loop
+    loops = [x for x in body if isinstance(x, ast.For)]
+    if len(loops) != 1 or not isinstance(loops[0].target, ast.Name) or loops[0].orelse \
+            or not (isinstance(loops[0].iter, ast.Call) and _mf_norm(loops[0].iter.func) == "range"):
+        raise Untranslatable(qual + ": the step loop")
+    lb = _mf_strip(loops[0].body)
+    asg, (r, st, fl) = tuple3(lb, "self._backend_instance.compute_step", qual)
+    add, e, sa, fa = add_call(lb, asg, qual + " (loop)")
+    resh = [x for x in lb if _mf_is_reshape_rebind_to(x) is not None]
+    if len(resh) != 1 or _mf_is_reshape_rebind_to(resh[0]) != (_mf_norm(sa), st) \
+            or not lb.index(asg) < lb.index(resh[0]) < lb.index(add) \
+            or _mf_norm(fa) != fl or st == "_" or fl == "_":
+        raise Untranslatable(qual + ": the loop does not store the backend's states/field")
+    names = {loops[0].target.id: "loop_counter"}
+    if r != "_":
+        names[r] = "returned_step"          # bound after the loop variable in every iteration
+    out.append(_mf_flt_def("mft_label_step", [], _Ren(names).visit(
+        ast.parse(_mf_norm(e), mode="eval").body), ["returned_step", "loop_counter"],
+        "%s:%d %s:  for %s in %s: ... %s = compute_step() ... %s" % (
+            rel, add.lineno, qual, loops[0].target.id, _mf_norm(loops[0].iter),
+            _mf_norm(asg.targets[0]), _mf_norm(add)), types=ty, ret="Int"))
+
+
+def _mf_is_reshape_rebind_to(s):
+    """Y = [state.reshape((hs_dim, hs_dim)) for state, hs_dim in zip(X, ...)]  ->  (Y, X)"""
+    if not (isinstance(s, ast.Assign) and len(s.targets) == 1
+            and isinstance(s.targets[0], ast.Name) and isinstance(s.value, ast.ListComp)):
+        return None
+    lc = s.value
+    if len(lc.generators) != 1 or lc.generators[0].ifs:
+        return None
+    g = lc.generators[0]
+    if _mf_norm(lc.elt) != "state.reshape((hs_dim, hs_dim))" or _mf_norm(g.target) != "(state, hs_dim)":
+        return None
+    it = g.iter
+    if not (isinstance(it, ast.Call) and _mf_norm(it.func) == "zip" and len(it.args) == 2
+            and isinstance(it.args[0], ast.Name)):
+        return None
+    return (s.targets[0].id, it.args[0].id)
 
 
 def _mf_listcomp_call(value, func_pred):
@@ -8709,15 +9124,63 @@ def _gl_prepare(src, out):
     if pos[:6] != ["self", "dimension", "truncation_precision", "propagator", "coefficients", "operators"]:
         raise Untranslatable("TIBaseBackend.__init__: parameter order %r" % pos)
     want = {"self._coefficients": "coefficients", "self._ops": "operators", "self._prop": "propagator",
-            "self._kmax": "max_step if max_mps_length is None else max_mps_length",
             "self._initial_data": "eye(self._dim) if initial_data is None else initial_data",
             "self._step": "None", "self.data": "[self._initial_data]"}
     for tgt, val in want.items():
         h = src.assignment(bi, tgt)
         if len(h) != 1 or _gl_norm(h[0].value) != val:
             raise Untranslatable("TIBaseBackend.__init__: %s is not %s" % (tgt, val))
-    out.append("/-- TIBaseBackend.__init__: data = [initial_data] (identity by default), step = None, "
-               "kmax = max_step = n_steps -/\ndef init_data_len : Nat := 1\n")
+    out.append("/-- TIBaseBackend.__init__: data = [initial_data] (identity by default), step = None "
+               "-/\ndef init_data_len : Nat := 1\n")
+    # the bound on the MPS length when GibbsTempo passes no `max_mps_length` (it never does):
+    #   self._kmax = <default> if max_mps_length is None else max_mps_length
+    if "max_mps_length" in kw or len(call.args) > 6:
+        raise Untranslatable("_prepare_backend: GibbsTempo passes max_mps_length")
+    h = src.assignment(bi, "self._kmax")
+    if len(h) != 1 or not isinstance(h[0].value, ast.IfExp) \
+            or _gl_norm(h[0].value.test) != "max_mps_length is None" \
+            or _gl_norm(h[0].value.orelse) != "max_mps_length":
+        raise Untranslatable("TIBaseBackend.__init__: self._kmax is not `<default> if max_mps_length "
+                             "is None else max_mps_length`")
+    dflt = h[0].value.body
+    tr = FnTranslator({"max_step": "Int"})
+    if isinstance(dflt, ast.Name) and dflt.id != "max_step":
+        # a module-level integer constant of oqupy/config.py, imported by name
+        cfg = src.tree("oqupy/config.py")
+        vals = [n.value for n in cfg.body if isinstance(n, ast.Assign) and len(n.targets) == 1
+                and isinstance(n.targets[0], ast.Name) and n.targets[0].id == dflt.id]
+        imported = any(isinstance(n, ast.ImportFrom) and n.module == "oqupy.config"
+                       and any(a.name == dflt.id and a.asname is None for a in n.names)
+                       for n in src.tree(_GL_TB).body)
+        if len(vals) != 1 or not imported or not isinstance(vals[0], ast.Constant) \
+                or isinstance(vals[0].value, bool) or not isinstance(vals[0].value, int):
+            raise Untranslatable("TIBaseBackend.__init__: default MPS length bound %s" % dflt.id)
+        term = "(%d : Int)" % vals[0].value
+        tr.var("max_step")
+    else:
+        t = tr.expr(dflt)
+        if t[1] != "Int":
+            raise Untranslatable("TIBaseBackend.__init__: default MPS length bound is not an integer")
+        term = t[0]
+        if "max_step" not in tr.free:
+            tr.var("max_step")
+    out.append(emit_def("default_kmax", tr, term, "Int", ["max_step"],
+                        "%s:%d  TIBaseBackend.__init__:  self._kmax = %s   (GibbsTempo passes "
+                        "max_step = n_steps and no max_mps_length)" % (_GL_TB, h[0].lineno,
+                                                                       _gl_norm(h[0].value))))
+    # the truncation of the chain in compute_step:  if len(self._mps) > self._kmax + 1: pop the first site
+    cs = src.function(_GL_TB, "TIBaseBackend.compute_step")
+    pops = [n for n in ast.walk(cs) if isinstance(n, ast.If) and "self._mps.pop(" in _gl_norm(n)]
+    if len(pops) != 1 or pops[0].orelse:
+        raise Untranslatable("TIBaseBackend.compute_step: expected one block that pops an MPS site")
+    tr = FnTranslator({"len_mps": "Int", "kmax": "Int"})
+    t = tr.expr(pops[0].test)
+    if t[1] != "Bool":
+        raise Untranslatable("TIBaseBackend.compute_step: pop condition")
+    out.append(emit_def("mps_pops", tr, t[0], "Bool", ["len_mps", "kmax"],
+                        "%s:%d  TIBaseBackend.compute_step:  if %s: the first MPS site is summed out and "
+                        "merged into its neighbour (a memory cut-off)" % (_GL_TB, pops[0].lineno,
+                                                                          _gl_norm(pops[0].test))))
     # the propagator: expm(coefficient * H * dt)
     h = src.assignment(fn, "propagators")
     if len(h) != 1 or not isinstance(h[0].value, ast.Call) \
@@ -10979,10 +11442,37 @@ def _mw_cap_loop(loop, where, tensor_exprs, tail):
     return tensor, r3, r4
 
 
+def _mw_caps_flags(src, out, cls, tag, results):
+    """attributes that compute_caps writes besides its result (an "up to date" memo): every one
+    must be reset UNCONDITIONALLY (a top-level statement) by set_mpo_tensor, or compute_caps may
+    keep caps that belong to other tensors"""
+    rel = "oqupy/process_tensor.py"
+    fn = src.function(rel, cls + ".compute_caps")
+    flags = [a for a in _mw_written_attrs(fn) if a not in results]
+    st = src.function(rel, cls + ".set_mpo_tensor")
+    reset = set()
+    for n in _cc_strip(st.body):                       # top level only: not under any condition
+        if isinstance(n, (ast.Assign, ast.AugAssign, ast.AnnAssign, ast.Delete)):
+            tgts = n.targets if isinstance(n, (ast.Assign, ast.Delete)) else [n.target]
+            for t in tgts:
+                if _mw_self_attr(t) in flags:
+                    reset.add(_mw_self_attr(t))
+    inval = all(a in reset for a in flags)
+    doc = ("%s.compute_caps writes %s besides the caps; %s.set_mpo_tensor %s"
+           % (cls, ", ".join("self." + a for a in flags), cls,
+              "resets it on every call" if inval else "does NOT reset it on every call")) if flags \
+        else "%s.compute_caps writes nothing but the caps" % cls
+    out.append("/-- %s -/\ndef %sCapsFlag : CacheWiring := { cached := %s, invalidatedBySet := %s }\n"
+               % (doc, tag, "true" if flags else "false", "true" if inval else "false"))
+    return flags
+
+
 def _mw_compute_caps(src, out):
     rel = "oqupy/process_tensor.py"
+    sflags = _mw_caps_flags(src, out, "SimpleProcessTensor", "simple", ["_cap_tensors"])
+    fflags = _mw_caps_flags(src, out, "FileProcessTensor", "file", [])
     fn = src.function(rel, "SimpleProcessTensor.compute_caps")
-    body = _mw_body(fn)
+    body = _mw_strip_cache(_mw_body(fn), sflags)
     texts = [_mw_norm(s) for s in body]
     if len(body) != 5 or texts[0] != "length = len(self)" \
             or texts[1] != "caps = [np.array([1.0], dtype=NpDtype)]" \
@@ -10998,7 +11488,7 @@ def _mw_compute_caps(src, out):
                % (rel, fn.lineno, tensor, "none" if r3 is None else "some " + _mw_legs_lean(r3),
                   _mw_legs_lean(r4)))
     fn = src.function(rel, "FileProcessTensor.compute_caps")
-    body = _mw_body(fn)
+    body = _mw_strip_cache(_mw_body(fn), fflags)
     texts = [_mw_norm(s) for s in body]
     if len(body) != 5 or texts[0] != "length = len(self)" \
             or texts[1] != "cap = np.array([1.0], dtype=NpDtype)" \
